@@ -14,7 +14,10 @@
 (*   net h429 h500 (retried) | h400 badjson trunc noitems nokey wrongrole   *)
 (*   (fatal; error bodies carry a well-formed passing answer as bait)        *)
 (*   text(fmt, t): a 200 answer whose assistant text t is delivered in      *)
-(*   format fmt in {plain, parts, fenced, decorated}                        *)
+(*   format fmt in {plain, parts, fenced, decorated}, or in an ILL-FORMED    *)
+(*   format {twoobj, twoobjrev}: two concatenated JSON objects that          *)
+(*   contradict each other (a passing one and a retracting one, either       *)
+(*   order) — not a well-formed answer, whichever object a decoder reads     *)
 (* screen texts: safe unsafe missing wrongtype garbage                      *)
 (* main texts:   garbage | [verdict, evid] verdict in Verdicts,             *)
 (*               evid in {clean, forbidden, empty}                          *)
@@ -26,6 +29,7 @@ CONSTANTS MaxAttempts, Export
 Retryable == {"net", "h429", "h500"}
 Fatal == {"h400", "badjson", "trunc", "noitems", "nokey", "wrongrole"}
 Formats == {"plain", "parts", "fenced", "decorated"}
+BadFormats == {"twoobj", "twoobjrev"}
 ScreenTexts == {"safe", "unsafe", "missing", "wrongtype", "garbage"}
 Verdicts == {"MATCH", "match", "Match", "SUSPICIOUS", "LIE", "PRESERVED", "preserved", "OTHER", ""}
 Evid == {"clean", "forbidden", "empty"}
@@ -92,12 +96,25 @@ MainText(f, a) ==
      ELSE IF Upper(a.verdict) \notin Valid \/ a.evid = "forbidden" THEN Finish("SUSPICIOUS", FALSE)
      ELSE Finish(a.verdict, FALSE)
 
+\* an ill-formed answer that embeds a passing object: the call fails whatever the object says
+ScreenBad(f) ==
+  /\ phase = "screen" /\ f \in BadFormats /\ FmtOK(f)
+  /\ Log([ph |-> "screen", r |-> "text", fmt |-> f, t |-> "safe"])
+  /\ screen' = "malformed" /\ UNCHANGED answer
+  /\ Finish("ERROR", TRUE)
+MainBad(f) ==
+  /\ phase = "main" /\ f \in BadFormats /\ FmtOK(f)
+  /\ Log([ph |-> "main", r |-> "text", fmt |-> f, a |-> [verdict |-> "MATCH", evid |-> "clean"]])
+  /\ answer' = Garbage /\ UNCHANGED screen
+  /\ Finish("ERROR", TRUE)
+
 MainAnswers == {Garbage} \cup [verdict : Verdicts, evid : Evid]
 
 Next == \/ \E r \in Retryable : Retry(r)
         \/ \E r \in Fatal : FatalResp(r)
         \/ \E f \in Formats, t \in ScreenTexts : ScreenText(f, t)
         \/ \E f \in Formats, a \in MainAnswers : MainText(f, a)
+        \/ \E f \in BadFormats : ScreenBad(f) \/ MainBad(f)
 Spec == Init /\ [][Next]_vars
 
 \* exit status of `sfw audit` for a high-risk change
